@@ -40,11 +40,13 @@ type (
 	}
 	SQVar struct{ Name, Type string }
 	SChar struct{ Val byte }
+	SStr  struct{ Val string } // string literal "..." (no escapes other than \\ and \")
 )
 
 func (e *SNum) String() string   { return e.Text }
 func (e *SIdent) String() string { return e.Name }
 func (e *SChar) String() string  { return fmt.Sprintf("%q", e.Val) }
+func (e *SStr) String() string   { return fmt.Sprintf("%q", e.Val) }
 func (e *SBin) String() string   { return "(" + e.L.String() + " " + e.Op + " " + e.R.String() + ")" }
 func (e *SUn) String() string    { return e.Op + e.X.String() }
 func (e *SCall) String() string {
@@ -126,6 +128,21 @@ func lexSpec(s string) ([]tok, error) {
 			} else {
 				return nil, fmt.Errorf("bad char literal at %d in %q", i, s)
 			}
+		case c == '"':
+			j := i + 1
+			var sb strings.Builder
+			for j < len(s) && s[j] != '"' {
+				if s[j] == '\\' && j+1 < len(s) {
+					j++
+				}
+				sb.WriteByte(s[j])
+				j++
+			}
+			if j >= len(s) {
+				return nil, fmt.Errorf("unterminated string literal at %d in %q", i, s)
+			}
+			out = append(out, tok{"str", sb.String(), i})
+			i = j + 1
 		case unicode.IsLetter(rune(c)) || c == '_' || c == '$':
 			j := i
 			for j < len(s) && (isAlnum(s[j]) || s[j] == '_' || s[j] == '$') {
@@ -409,6 +426,8 @@ func (ps *specParser) primary() SpecExpr {
 		return &SNum{t.text}
 	case "char":
 		return &SChar{t.text[0]}
+	case "str":
+		return &SStr{t.text}
 	case "ident":
 		if t.text == "forall" || t.text == "exists" {
 			ps.p--
